@@ -11,6 +11,7 @@ Emitted (per source axes A of the batch):
 * gen_ff_exp_restores A                   the result is  expv's output, labelled X, converted back to A  (bool)
 * gen_ff_warp_ac / _coords_ac / _cube A   flag handed to warp_image, flag of the coordinates, axes of the flow handed over
 * gen_ff_sample_rescales A                sample(grids'): every item is  grid_i.transform_vectors(resampled_i, A, A, grid'_i)
+* gen_ff_append_converts A B              a.append(other): other (axes B, own grids) is converted to a's axes A first
 Structural checks (fail closed): axes(B) converts item i with grid i from the batch's axes to B and labels the result B
 (all 16 pairs, 2 items with different grids); FlowField wrappers are not traced (they go through batch()[0])."""
 import itertools
@@ -105,6 +106,10 @@ def make_stub_image_module():
                 obj._axes = kwargs["axes"]
             return obj
 
+        def append(self, other):
+            ImageBatch.calls.append({"append": other})
+            return ("appended", self, other)
+
         def sample(self, arg, mode=None, padding=None):
             grids = list(arg) if isinstance(arg, (list, tuple)) else [arg] * len(self._grid)
             N, C = self._data.shape[0], self._data.shape[1]
@@ -189,6 +194,31 @@ def generate(loader):
                     raise TraceError(f"FlowFields.axes {a}->{b}: item i is not grid_i.transform_vectors(v_i, {a}, {b})")
                 if ff.axes() is not AX[a]:
                     raise TraceError("axes() getter")
+            # ---- append: the other batch is converted to this batch's axes before the data are concatenated ----
+            for a, b in itertools.product(AXN, AXN):
+                grids = [mk_grid(Grid, D, p="g")]
+                ogrids = [mk_grid(Grid, D, p="h", align=False), mk_grid(Grid, D, p="k")]
+                me = new_batch(M, sym((1, D) + (1,) * (D - 1) + (2,), "v"), grids, AX[a])
+                odata = sym((2, D) + (1,) * (D - 1) + (2,), "w")
+                other = new_batch(M, odata, ogrids, AX[b])
+                IB.calls.clear()
+                r = me.append(other)
+                if len(IB.calls) != 1 or "append" not in IB.calls[0] or r[:2] != ("appended", me):
+                    raise TraceError("FlowFields.append does not go through ImageBatch.append once")
+                got = IB.calls[0]["append"]
+                conv = (getattr(got, "_axes", None) is AX[a] and [id(g) for g in got._grid] == [id(g) for g in ogrids]
+                        and same_generic(got.tensor(), convert(ogrids, odata, AX[b], AX[a]), [odata], rng))
+                if not conv and not (got is other):
+                    raise TraceError(f"FlowFields.append ({a} <- {b}): appended batch is neither the argument nor its conversion")
+                if table.setdefault("append_converts", {}).setdefault((a, b), conv) != conv:
+                    raise TraceError("FlowFields.append: conversion depends on D")
+                # a plain ImageBatch is appended unchanged
+                plain = object.__new__(IB)
+                plain._data, plain._grid = odata, list(ogrids)
+                IB.calls.clear()
+                me.append(plain)
+                if IB.calls[0]["append"] is not plain:
+                    raise TraceError("FlowFields.append modifies a plain ImageBatch argument")
             for a in AXN:
                 for gflag in (True, False):   # the grid's own flag must not matter
                     grids = [concrete_grid(Grid, D, sizes, "g", gflag), concrete_grid(Grid, D, sizes, "h", gflag)]
@@ -308,4 +338,8 @@ def generate(loader):
                            ("warp_coords_ac", "bool", b), ("warp_cube", "axes", str), ("sample_rescales", "bool", b)):
         arms = "\n".join(f"  | {a} => {conv(table[key][a])}" for a in AXN)
         out.append(f"Definition gen_ff_{key} (A : axes) : {rty} :=\n  match A with\n{arms}\n  end.\n")
+    ap = table["append_converts"]
+    arms = "\n".join(f"  | {a}, {b_} => {b(ap[(a, b_)])}" for a, b_ in itertools.product(AXN, AXN))
+    out.append("(* a.append(other) with a.axes() = A, other.axes() = B: is `other` converted to A (with its own grids) before ImageBatch.append? *)\n"
+               f"Definition gen_ff_append_converts (A B : axes) : bool :=\n  match A, B with\n{arms}\n  end.\n")
     return "\n".join(out) + "\n"
